@@ -467,8 +467,8 @@ func PropC02(c *vs.Case, f Factory, kind string) error {
 		c.NonTrivial()
 	}
 	c.Class("cfg:%s ssa=%v", kind, scn.Cfg.SSA)
-	if len(env.CacheViolations) > 0 {
-		return vs.Violf("C17/cache-mutated", "shared cache objects changed during a sync: %v", env.CacheViolations)
+	if v := env.SharedStateViolation(); v != nil {
+		return v
 	}
 	return nil
 }
